@@ -142,6 +142,19 @@ def check(ctx, build=None):
                       "emitted": k4.emitted_def(lr["text"], "F")}, {"go": m["go"], "or": "a conversion error"}, {"gooselang": m["gl"]})
             else:
                 per_entry[eid]["faithful"] += 1
+        # ---- declarations that have no meaning in GooseLang, under every flag combination that changes the path through the
+        #      translator: rejected, never given an invented meaning (a function without a body would need a body to translate)
+        bsrc = "package p\n\nfunc checksum(x uint64) uint64\n\nfunc Use(x uint64) uint64 {\n\treturn checksum(x) + 1\n}\n"
+        for flags in ([], ["-skip-interfaces"], ["-skip-interfaces", "-typecheck"], ["-typecheck"]):
+            root = os.path.join(scratch, "bodyless")
+            gomod.write_module(root, {"p": {"p.go": bsrc, "stub.s": "// the body of checksum would be here\n"}})
+            rc, gerr, text = k4.translate(root, flags=tuple(flags))
+            stats["flag_runs"] += 1
+            shutil.rmtree(root, ignore_errors=True)
+            emitted = k4.emitted_def(text, "checksum") if text else None
+            if rc == 0 or emitted:
+                viol("C02: a function declared without a body is given a meaning", {"proto": "c02-flags", "package": bsrc, "flags": flags},
+                     "a conversion error for checksum", {"exit": rc, "emitted": emitted or (text or "")[:800]})
         # ---- the control-flow model against the real translator: which skeletons are rejected, and why
         for ts in range(ctx.seed * 40 + 1000, ctx.seed * 40 + 1000 + (2 if ctx.tier == "quick" else 25)):
             st, bad = trcorr.run(ts, 40, scratch)
